@@ -62,6 +62,7 @@ def run_one(sid, tier, props=None):
             t0 = time.time()
             env = dict(os.environ)
             env.setdefault("VERIF_BUDGET_S", "300")
+            env["VERIF_EVIDENCE_DIR"] = os.path.join(ROOT, "work", "evidence-seeded")   # never touch the committed evidence
             try:
                 c = sh([os.path.join(ROOT, "check"), prop, tier], env=env, cwd=ROOT, timeout=1500)
             except subprocess.TimeoutExpired:
